@@ -60,8 +60,12 @@ def do_confirm(name):
         m["applies"] = r.returncode == 0
         env = dict(os.environ, NXSLIB_SRC=wt + "/src", PYTHONPATH=wt + "/src")
         r1 = sh("timeout 120 %s %s" % (PY, os.path.join(d, "demo.py")), env=env)
-        env0 = dict(os.environ, NXSLIB_SRC="/repo/src", PYTHONPATH="/repo/src")
+        clean = wt + "-clean"
+        sh("git -C /repo worktree remove --force %s" % clean)
+        sh("git -C /repo worktree add --detach %s HEAD" % clean)
+        env0 = dict(os.environ, NXSLIB_SRC=clean + "/src", PYTHONPATH=clean + "/src")
         r0 = sh("timeout 120 %s %s" % (PY, os.path.join(d, "demo.py")), env=env0)
+        sh("git -C /repo worktree remove --force %s" % clean)
         m["demo_with_change_exit"] = r1.returncode
         m["demo_with_change_out"] = (r1.stdout + r1.stderr)[-400:]
         m["demo_without_exit"] = r0.returncode
